@@ -29,7 +29,8 @@ EXTENDS TileAddr, MetaTile, GeoRef
 CONSTANTS G,          \* the grid (record, see Lattice)
           MS,         \* meta size <<mx, my>>
           Buf,        \* meta buffer in pixels
-          Reqs        \* set of map requests offered to the model checker
+          Reqs,       \* set of map requests offered to the model checker
+          AddrMax     \* public tile addresses -1 .. AddrMax per axis are offered
 
 VARIABLES cache, fetched, last
 mvars == <<cache, fetched, last>>
@@ -75,7 +76,7 @@ CleanupLevel(l) ==
   /\ cache' = {t \in cache : t[3] # l} /\ UNCHANGED fetched
   /\ last' = [op |-> "cleanup", ok |-> TRUE, new |-> 0]
 
-PublicAddrs == {<<x, y, l>> : x \in -1 .. 8, y \in -1 .. 8, l \in -1 .. NLevels(G)}
+PublicAddrs == {<<x, y, l>> : x \in -1 .. AddrMax, y \in -1 .. AddrMax, l \in -1 .. NLevels(G)}
 MNext ==
   \/ \E f \in Flavours, a \in PublicAddrs : TileReq(f, a)
   \/ \E q \in Reqs : MapReq(q)
